@@ -354,7 +354,6 @@ def _b(o):
 class SNum:
   """Symbolic number (z3 Int or Real term)."""
   __slots__ = ('e',)
-  __array_priority__ = 1000
 
   def __init__(self, e):
     self.e = e
